@@ -188,38 +188,139 @@ def c04_oracle(case, io):
 
 
 # ------------------------------------------------------------------------------------------ C10 ND
+def c10_big_ops(rng):
+    """ops building an N-d histogram with contents / squared errors beyond 2**53 (exact run sums); (ops, register, tags)"""
+    from . import c10 as _c10
+    init, axes = rand_nd_op(rng, d=rng.choice([2, 2, 3]), dtype="int64")
+    size = len(init["freq"])
+    how = rng.choice(["direct", "direct", "scaled", "float"])
+    if how == "direct":
+        f = _c10.big_int_values(rng, size)
+        r = rng.random()
+        e = None if r < 0.3 else (_c10.big_int_values(rng, size) if r < 0.8 else [rng.randint(0, 9) for _ in range(size)])
+        if r >= 0.8 and rng.random() < 0.5:
+            f, e = e, f
+        init.update(freq=[str(x) for x in f], err2=None if e is None else [str(x) for x in e])
+        return [init], 0, ["big:int64_direct"], axes
+    if how == "scaled":
+        k = rng.choice([10_000_001, 94_906_267, 2**27 + 1])
+        room = _c10.INT64_MAX // (k * k)
+        c = [min(rng.choice([0, 1, 3, 17, 400, 163, 1000]), max(0, room // size)) for _ in range(size)]
+        init.update(freq=[str(x) for x in c], err2=None)
+        if rng.random() < 0.3:
+            return [init, {"op": "imul", "h": 0, "c": str(k), "k": "pyint"}], 0, ["big:int64_scaled"], axes
+        return [init, {"op": "mul", "h": 0, "c": str(k), "k": "pyint", "out": 1, "reflected": rng.random() < 0.3}], 1, \
+            ["big:int64_scaled"], axes
+    # one grid for contents and squared errors: the coefficients of each add up to less than 2**53
+    f = _c10.big_float_values(rng, size)
+    e = None if rng.random() < 0.3 else _c10.big_float_values(rng, size)
+    init.update(freq=[rs(x) for x in f], err2=None if e is None else [rs(x) for x in e], dtype="float64")
+    return [init], 0, ["big:float64_exact"], axes
+
+
 def c10_gen(rng):
-    init, axes = rand_nd_op(rng, d=rng.choice([2, 2, 3]))
+    from . import c10 as _c10
+    r = rng.random()
+    stream = "big_nd" if r < 0.15 else ("carrier_nd" if r < 0.37 else None)
+    if stream == "big_nd":
+        ops, reg, tags, axes = c10_big_ops(rng)
+        init = ops[0]
+    else:
+        init, axes = rand_nd_op(rng, d=rng.choice([2, 2, 3]))
+        ops, reg, tags = [init], 0, []
     d = len(axes)
     names = init["names"] or [f"axis{i}" for i in range(d)]
     mode = rng.choice(["amount", "amount", "minfreq", "all"])
-    op = {"op": "merge", "h": 0, "inplace": rng.random() < 0.5, "out": 1}
+    op = {"op": "merge", "h": reg, "inplace": rng.random() < 0.5, "out": reg + 1}
     ax = rng.randrange(d)
     if mode != "all":
         op["axis"] = names[ax] if rng.random() < 0.3 else ax
         op["_axis"] = ax
-    if mode == "minfreq":
-        op["min_freq"] = rs(rng.choice([1, 2, 3.5, 5, 8, 12]))
+    if stream == "carrier_nd":
+        if mode == "minfreq":
+            tags += _c10.rand_threshold(rng, op, pool=("1", "2", "7/2", "5", "8", "12"))
+        else:
+            nb = len(axes[ax][1]) if mode != "all" else max(len(a[1]) for a in axes)
+            tags += _c10.rand_amount(rng, nb, op)
+    elif mode == "minfreq":
+        if stream == "big_nd":
+            # thresholds among the contents (python integers for integer contents: compared exactly)
+            pool = [Fraction(x) for x in init["freq"]] + [Fraction(1), Fraction(2**53)]
+            if len(ops) == 2:
+                pool = [x * int(ops[1]["c"]) for x in pool]
+            op["min_freq"] = rs(rng.choice(pool))
+            op["mk"] = "pyint" if init["dtype"] == "int64" else "pyfloat"
+        else:
+            op["min_freq"] = rs(rng.choice([1, 2, 3.5, 5, 8, 12]))
     else:
         op["amount"] = rng.randint(1, 4)
-    return {"kind": "histn", "ops": [init, op], "tags": ["nd", "mode:" + mode]}
+        if stream == "big_nd" and rng.random() < 0.3:
+            op["amount"], op["ak"] = str(op["amount"]), rng.choice(_c10.NP_INTS)
+    return {"kind": "histn", "ops": ops + [op], "tags": ["nd", "mode:" + mode] + tags + (["stream:" + stream] if stream else [])}
+
+
+def c10_shrink(case):
+    """the last bin of one axis goes (static binnings), no explicit squared errors, the plain call"""
+    init = case["ops"][0]
+    m = len(case["ops"]) - 1
+    shape = [len(a["bins"]) if a["t"] == "static" else a["count"] for a in init["axes"]]
+    for ax, a in enumerate(init["axes"]):
+        if shape[ax] <= 1:
+            continue
+        c = copy.deepcopy(case)
+        i0 = c["ops"][0]
+        if a["t"] == "static":
+            del i0["axes"][ax]["bins"][-1]
+        else:
+            i0["axes"][ax]["count"] -= 1
+        for key in ("freq", "err2"):
+            if i0.get(key) is not None:
+                arr_ = np.array(i0[key], dtype=object).reshape(shape)
+                i0[key] = [str(x) for x in np.delete(arr_, shape[ax] - 1, axis=ax).ravel()]
+        yield c
+    if init.get("err2") is not None:
+        c = copy.deepcopy(case)
+        c["ops"][0]["err2"] = None
+        yield c
+    if case["ops"][m].get("inplace"):
+        c = copy.deepcopy(case)
+        c["ops"][m]["inplace"] = False
+        yield c
 
 
 def c10_oracle(case, io):
+    from . import c10 as _c10
     outs, ops = io["outs"], case["ops"]
     fails = []
-    if outs[0]["ret"] == "REFUSED":
+    m = len(ops) - 1
+    if any(o["ret"] == "REFUSED" for o in outs[:m]):
         return ["refused_valid: setup refused: " + "; ".join(io["log"][:2])]
-    op = ops[1]
-    src = outs[0]["regs"][0]
+    op = ops[m]
+    reg = op.get("h", 0)
+    src = outs[m - 1]["regs"][reg]
     d = src["ndim"]
     F, E = obj_arr(src["freq"], src["shape"]), obj_arr(src["err2"], src["shape"])
     axes_to_merge = [op["_axis"]] if "_axis" in op else list(range(d))
     bins = [[(Fraction(l), Fraction(r)) for l, r in b] for b in src["bins"]]
     crosses = False
     expF, expE, exp_bins = F, E, [list(b) for b in bins]
+    cls = "must"
     if op.get("amount") is not None:
-        a = op["amount"]
+        cls = _c10.amount_class(op)
+        if cls in ("fractional", "zero", "negative"):
+            # a non-integral amount (whatever carries it) and zero are to be refused; negative amounts are outside the
+            # property: only all-or-nothing is looked at
+            if outs[m]["ret"] == "REFUSED":
+                if outs[m]["regs"][reg] != src:
+                    fails.append("refused_changed: a refused merge changed the histogram (not all-or-nothing)")
+            elif cls != "negative":
+                got = outs[m]["regs"][reg if op.get("inplace") else op["out"]]
+                fails.append(f"accepted_invalid: merge_bins(amount = {_c10.amount_text(op)}) accepted: shape {src['shape']} -> "
+                             f"{got['shape']}")
+            elif not op.get("inplace") and outs[m]["regs"][reg] != src:
+                fails.append("operand_modified: merge_bins() without inplace modified the original")
+            return fails
+        a = int(_c10.amount_of(op)[0])
         for ax in axes_to_merge:
             nb = len(bins[ax])
             runs = [list(range(s, min(nb, s + a))) for s in range(0, nb, a)]
@@ -228,22 +329,24 @@ def c10_oracle(case, io):
             exp_bins[ax] = [(bins[ax][r[0]][0], bins[ax][r[-1]][1]) for r in runs]
             expF = np.stack([np.take(expF, r, axis=ax).sum(axis=ax) for r in runs], axis=ax)
             expE = np.stack([np.take(expE, r, axis=ax).sum(axis=ax) for r in runs], axis=ax)
-    if outs[1]["ret"] == "REFUSED":
-        if op.get("amount") is not None and not crosses:
-            fails.append("refused_valid: merge refused: " + "; ".join(io["log"][:2]))
-        if outs[1]["regs"][0] != src:
+    if outs[m]["ret"] == "REFUSED":
+        if op.get("amount") is not None and not crosses and cls == "must":
+            fails.append(f"refused_valid: merge_bins({_c10.amount_text(op)}) refused: " + "; ".join(io["log"][:2]))
+        if outs[m]["regs"][reg] != src:
             fails.append("refused_changed: a refused merge changed the histogram (not all-or-nothing)")
         return fails
-    res = outs[1]["regs"][0 if op.get("inplace") else 1]
+    res = outs[m]["regs"][reg if op.get("inplace") else op["out"]]
     if crosses:
         return ["merged_across_gap: a run spanning a gap was merged"]
     if op.get("amount") is not None:
         if [[(Fraction(l), Fraction(r)) for l, r in b] for b in res["bins"]] != exp_bins:
-            fails.append(f"merged_bins: bins after merge are {res['bins']}")
+            fails.append(f"merged_bins: bins after merge_bins({_c10.amount_text(op)}) are {res['bins']}, expected runs of {a}")
         elif [Fraction(x) for x in res["freq"]] != list(np.asarray(expF, dtype=object).ravel()):
-            fails.append("merged_content: contents are not the runs' sums")
+            fails.append(f"merged_content: contents {res['freq']} are not the runs' sums of {src['freq']} (shape {src['shape']}, "
+                         f"runs of {a} on axes {axes_to_merge})")
         elif [Fraction(x) for x in res["err2"]] != list(np.asarray(expE, dtype=object).ravel()):
-            fails.append("merged_err2: squared errors are not the runs' sums")
+            fails.append(f"merged_err2: squared errors {res['err2']} are not the runs' sums of {src['err2']} (shape {src['shape']}, "
+                         f"runs of {a} on axes {axes_to_merge})")
     else:
         ax = op["_axis"]
         for i in range(d):
@@ -255,13 +358,27 @@ def c10_oracle(case, io):
         old_edges = {x for p in bins[ax] for x in p}
         if any(l not in old_edges or r not in old_edges for l, r in nb):
             fails.append("minfreq_union: new bins are not unions of old bins")
+        elif not fails:
+            # contents and squared errors of every new bin: the sums over the old bins it is the union of
+            lefts = [p[0] for p in bins[ax]]
+            starts = [lefts.index(l) for l, _ in nb if l in lefts]
+            if len(starts) == len(nb) and starts == sorted(set(starts)) and starts[:1] == [0]:
+                groups = [list(range(s, t)) for s, t in zip(starts, starts[1:] + [len(lefts)])]
+                gF = np.stack([np.take(F, g, axis=ax).sum(axis=ax) for g in groups], axis=ax)
+                gE = np.stack([np.take(E, g, axis=ax).sum(axis=ax) for g in groups], axis=ax)
+                if [Fraction(x) for x in res["freq"]] != list(np.asarray(gF, dtype=object).ravel()):
+                    fails.append(f"minfreq_content: contents {res['freq']} are not the sums over the merged bins of {src['freq']}")
+                elif [Fraction(x) for x in res["err2"]] != list(np.asarray(gE, dtype=object).ravel()):
+                    fails.append(f"minfreq_err2: squared errors {res['err2']} are not the sums over the merged bins of {src['err2']}")
+            else:
+                fails.append("minfreq_union: new bins are not unions of adjacent old bins in order")
     if Fraction(res["total"]) != Fraction(src["total"]):
         fails.append("total: total changed")
     if res["missed"] != src["missed"]:
         fails.append("missed: missed changed")
     if res["names"] != src["names"]:
         fails.append("names: axis names changed")
-    if not op.get("inplace") and outs[1]["regs"][0] != src:
+    if not op.get("inplace") and outs[m]["regs"][reg] != src:
         fails.append("operand_modified: merge_bins() without inplace modified the original")
     return fails[:6]
 
